@@ -538,27 +538,133 @@ func returnsOf(fn *ssa.Function) []*ssa.Return {
 // x satisfies pred (for-range over a slice, or an explicit i < len(x) loop).  It returns the
 // header block, the block entered for an iteration (body) and the len value.
 func loopOverLen(fn *ssa.Function, pred func(sliceOrigins []string) bool) (header, body *ssa.BasicBlock, lenv ssa.Value) {
+	// the loop may have been moved into a new helper function
+	for _, f := range fnsDeep(fn) {
+		if h, b, l := loopOverLenIn(f, pred); h != nil {
+			return h, b, l
+		}
+	}
+	return nil, nil, nil
+}
+
+// fnsDeep: fn and the new helper functions it calls (transitively).
+func fnsDeep(fn *ssa.Function) []*ssa.Function {
+	out := []*ssa.Function{fn}
+	if len(newHelpers) == 0 {
+		return out
+	}
+	seen := map[*ssa.Function]bool{fn: true}
+	for i := 0; i < len(out); i++ {
+		for _, b := range out[i].Blocks {
+			for _, ins := range b.Instrs {
+				if ci, ok := ins.(ssa.CallInstruction); ok {
+					if h := ci.Common().StaticCallee(); h != nil && newHelpers[h] && !seen[h] && h.Blocks != nil {
+						seen[h] = true
+						out = append(out, h)
+					}
+				}
+			}
+		}
+	}
+	return out
+}
+
+// lenCallOf finds the len() call behind a loop bound: the call itself, a conversion of it, or a
+// local that was assigned from it once ("n := len(x)").
+func lenCallOf(v ssa.Value) *ssa.Call {
+	for d := 0; d < 6; d++ {
+		switch x := v.(type) {
+		case *ssa.Call:
+			if callee(x) == "builtin:len" {
+				return x
+			}
+			return nil
+		case *ssa.Convert:
+			v = x.X
+		case *ssa.ChangeType:
+			v = x.X
+		case *ssa.UnOp:
+			if x.Op != token.MUL {
+				return nil
+			}
+			al, ok := x.X.(*ssa.Alloc)
+			if !ok {
+				return nil
+			}
+			sts := storesTo(al)
+			if len(sts) != 1 {
+				return nil
+			}
+			v = sts[0].Val
+		default:
+			return nil
+		}
+	}
+	return nil
+}
+
+// loopOverLenIn: a loop of f whose header compares a counter with len(x) - written "i < len(x)",
+// "len(x) > i", "!(i >= len(x))" or with the length hoisted into a local - and continues into
+// the body exactly while counter < len(x).
+func loopOverLenIn(fn *ssa.Function, pred func(sliceOrigins []string) bool) (header, body *ssa.BasicBlock, lenv ssa.Value) {
 	for _, b := range fn.Blocks {
 		iff := lastIf(b)
 		if iff == nil {
 			continue
 		}
 		cm, truth, ok := cmpOf(iff.Cond)
-		if !ok || cm.op != token.LSS || !truth {
+		if !ok {
 			continue
 		}
-		call, ok := cm.y.(*ssa.Call)
-		if !ok || callee(call) != "builtin:len" {
+		call, counter := lenCallOf(cm.x), cm.y
+		lenLeft := true
+		if call == nil {
+			call, counter, lenLeft = lenCallOf(cm.y), cm.x, false
+		}
+		if call == nil {
 			continue
+		}
+		if _, isConst := stripConv(counter).(*ssa.Const); isConst {
+			continue // len(x) compared with a constant is not a loop bound
+		}
+		// on which edge does "counter < len" hold?
+		var ltOnOp bool // the operator holding means counter < len
+		switch cm.op {
+		case token.LSS: // x < y
+			ltOnOp = !lenLeft // counter < len when len is on the right
+		case token.GTR: // x > y
+			ltOnOp = lenLeft
+		case token.GEQ: // x >= y : counter >= len when len on the right -> negation is counter < len
+			ltOnOp = false
+			if lenLeft {
+				continue // len >= counter: boundary differs (off by one), not a plain bound
+			}
+			truth = !truth
+			ltOnOp = true
+		case token.LEQ: // x <= y : len <= counter  <=>  !(counter < len)
+			if !lenLeft {
+				continue
+			}
+			truth = !truth
+			ltOnOp = true
+		default:
+			continue
+		}
+		if !ltOnOp {
+			continue
+		}
+		bodyBlk := b.Succs[1]
+		if truth {
+			bodyBlk = b.Succs[0]
 		}
 		if !pred(origins(call.Call.Args[0])) {
 			continue
 		}
 		// must be a loop: the header is reachable from its body successor
-		if !reachableFrom(b.Succs[0], nil)[b] {
+		if !reachableFrom(bodyBlk, nil)[b] {
 			continue
 		}
-		return b, b.Succs[0], call
+		return b, bodyBlk, call
 	}
 	return nil, nil, nil
 }
